@@ -28,6 +28,11 @@ func alphabet(thorough bool) []string {
 	return a
 }
 
+// configuration with >= 50 pin records before the history: short histories over a small alphabet
+var manyAlphabet = []string{"Pin R1 rec x", "Pin R1 rec y", "Pin R1 dir x", "Unpin R1 rec", "Update R1 R2 unpin"}
+
+const manyConfig = "miss=none,auto=1,many=51"
+
 func configs(thorough bool) []string {
 	c := []string{"miss=none,auto=1", "miss=none,auto=0"}
 	if thorough {
@@ -51,23 +56,32 @@ type enumState struct {
 	cfg   string
 	cache map[string]*imageVerdict
 	torn  bool
+	gens  int // crash generations explored inside recovery runs (0 = none)
 	// counters
 	evals, cacheHits, dirtyImages, repairedImages, unstable int
 	tornEvals, tornFailing                                   int
+	recoveryImages, recoveryFailing                          int
 	tornSample                                               string
 	histories, failedOps                                     int
 }
 
 func writeClass(e logEntry) string { return e.Kind + ":" + keyClass(e.Key) }
 
-// verdictFor evaluates (or fetches) the verdict of an image.
+// verdictFor evaluates (or fetches) the verdict of an image. gens = how many
+// further crash generations (crashes inside the recovery run) are explored.
 func (es *enumState) verdictFor(h *history, img map[string][]byte, required map[string]bool) *imageVerdict {
-	canon := h.f.dumpRaw(imageDS(img)).canon() + "|req=" + setStr(required)
+	return es.verdictGen(h, img, required, es.gens)
+}
+
+func (es *enumState) verdictGen(h *history, img map[string][]byte, required map[string]bool, gens int) *imageVerdict {
+	canon := fmt.Sprintf("%s|req=%s|g=%d", h.f.dumpRaw(imageDS(img)).canon(), setStr(required), gens)
 	if v, ok := es.cache[canon]; ok {
 		es.cacheHits++
 		return v
 	}
-	v := evalImage(h.f, img, required)
+	v := evalImage(h.f, img, required, gens, func(sub map[string][]byte, g int) *imageVerdict {
+		return es.verdictGen(h, sub, required, g)
+	})
 	es.cache[canon] = v
 	return v
 }
@@ -135,6 +149,8 @@ func (es *enumState) checkLastOp(h *history) {
 		if v.unstable {
 			es.unstable++
 		}
+		es.recoveryImages += v.nextGenImages
+		es.recoveryFailing += v.nextGenFailing
 		syms := []string{}
 		for _, tv := range v.viols {
 			syms = append(syms, tv.Symptom)
@@ -145,6 +161,7 @@ func (es *enumState) checkLastOp(h *history) {
 				vv.Features[k] = x
 			}
 			vv.Features["last_write"] = writeClass(last)
+			vv.Features["pin_records_ge_50"] = fmt.Sprint(v.records >= 50)
 			// is the crash point between the delete of an old pin record and the put of a new one, within this operation?
 			window := false
 			for w := sp.Start + 1; w <= j; w++ {
@@ -197,7 +214,7 @@ func (es *enumState) checkLastOp(h *history) {
 			for _, w := range s {
 				drop[w] = true
 			}
-			tv := es.verdictFor(h, imageWithout(h.rec, j, drop), required)
+			tv := es.verdictGen(h, imageWithout(h.rec, j, drop), required, 0)
 			es.tornEvals++
 			if len(tv.viols) > 0 {
 				es.tornFailing++
@@ -248,8 +265,11 @@ func runUnit(r *eng.Run, u string) {
 	first, _ := strconv.Atoi(f[2])
 	alpha := alphabet(r.Thorough())
 	// out-of-order loss images only where the pinner syncs at all (autosync on)
-	es := &enumState{r: r, cfg: f[1], cache: map[string]*imageVerdict{}, torn: cfgVal(f[1], "auto") != "0"}
+	es := &enumState{r: r, cfg: f[1], cache: map[string]*imageVerdict{}, torn: cfgVal(f[1], "auto") != "0", gens: eng.Pick(r, 1, 2)}
 	ml := maxLen(r)
+	if cfgVal(f[1], "many") != "" {
+		alpha, ml = manyAlphabet, 2
+	}
 	if cfgVal(f[1], "miss") != "none" && ml > 3 {
 		ml = 3 // the missing-block configuration (operations failing half-way) is explored to length 3
 	}
@@ -261,6 +281,8 @@ func runUnit(r *eng.Run, u string) {
 	r.Add("prefix_images_with_dirty_flag_set", es.dirtyImages)
 	r.Add("prefix_images_repaired_on_reopen", es.repairedImages)
 	r.Add("second_reopen_differs(informational)", es.unstable)
+	r.Add("crash_images_inside_recovery_run", es.recoveryImages)
+	r.Add("crash_images_inside_recovery_run_failing", es.recoveryFailing)
 	r.Add("beyond_statement_unsynced_loss_images", es.tornEvals)
 	r.Add("beyond_statement_unsynced_loss_images_failing", es.tornFailing)
 	r.Add("batch_commits", 0)
@@ -291,7 +313,7 @@ func replayCrash(r *eng.Run, raw json.RawMessage) {
 		}
 		fmt.Printf("  write %2d: %-6s %s%s\n", w, e.Kind, e.Key, mark)
 	}
-	es := &enumState{r: r, cfg: c.Config, cache: map[string]*imageVerdict{}, torn: false}
+	es := &enumState{r: r, cfg: c.Config, cache: map[string]*imageVerdict{}, torn: false, gens: eng.Pick(r, 1, 2)}
 	// re-evaluate only the recorded crash point
 	sp := &h.spans[len(h.spans)-1]
 	if c.Write > sp.Start && c.Write <= sp.End {
@@ -323,7 +345,10 @@ func main() {
 				units = append(units, fmt.Sprintf("hist|%s|%d", cfg, i))
 			}
 		}
-		r.Set("configs", configs(r.Thorough()))
+		for i := range manyAlphabet {
+			units = append(units, fmt.Sprintf("hist|%s|%d", manyConfig, i))
+		}
+		r.Set("configs", append(configs(r.Thorough()), manyConfig))
 		runUnits(r, units)
 	}, func(r *eng.Run, raw json.RawMessage) {
 		var p struct {
